@@ -428,6 +428,11 @@ def run_sorting(ctx, quick):
         e = Add(*terms)
         if e == 0:
             continue
+        if len(terms) >= 3 and rng.random() < 0.35:
+            # a summand that still carries an unexpanded bracket
+            from sympy import Mul as _Mul, Symbol as _Symbol
+            e = Add(*terms[2:]) + _Mul(Add(terms[0], terms[1]),
+                                       _Symbol("zq"), evaluate=False)
         E = Expr(e, target_idx=tg)
         tname = rng.choice(["V", "t1", "t2", "f", "A", "B", "X", "n", "zz"])
         fns = [("by_delta_types", lambda x: sort_expr.by_delta_types(x),
@@ -455,7 +460,9 @@ def run_sorting(ctx, quick):
             total = 0
             for part in res.values():
                 total = total + getattr(part, "sympy", part)
-            pairs.append(EQ.Pair(Expr(total, target_idx=tg), E, tg,
+            from sympy import expand as _expand
+            pairs.append(EQ.Pair(Expr(_expand(total), target_idx=tg),
+                                 Expr(_expand(E.sympy), target_idx=tg), tg,
                                  f"{fname}:{k}"))
             meta.append((fname, tname, keyfn, res, E, tg))
     # filter_tensor: kept + dropped == original
@@ -538,7 +545,12 @@ def run_sorting(ctx, quick):
         for key, part in res.items():
             ictx = adcio.IdxCtx()
             try:
-                pp = adcio.conv_expr(part, ictx)
+                # fully expanded: a bracket left in a part must not hide the
+                # terms from the key oracle
+                from sympy import expand as _expand
+                pp = adcio.conv_expr(
+                    Expr(_expand(getattr(part, "sympy", part)),
+                         target_idx=tg), ictx)
             except adcio.Unsupported:
                 continue
             tgc = {ictx.conv(x) for x in tg}
